@@ -4,6 +4,10 @@ import json, os
 HERE = os.path.dirname(os.path.dirname(os.path.abspath(__file__)))
 
 CHECKS = {
+ 'C11': dict(level='exploration', ref='3/C11',
+   technique='seeded histories of binding attempts (parameter class x API path x scope) with re-registrations in interactive mode, rejected operation as the fault: bit-identical store snapshot before/after, admission model (rule A6) as oracle',
+   text='Attempts to bind valid, unknown, listed / unlisted, variadic-named and any-name-under-**kwargs parameters, methods through Class.method and by bare name, and unregistered configurables are made through string keys, tuple keys, config lines, indented blocks, scoped keys and finalize-hook mappings while the store is non-empty; a rejected attempt must raise and leave bindings (values by identity), provenance, config_str and the lock flag exactly as before, its value must never reach a later call, and an accepted one must be visible under the complete name. Re-registration in interactive mode changes lists / signatures between attempts.',
+   note='Binding the implicit self/cls parameter of constructors is not judged (the property does not say).'),
  'C08': dict(level='exploration', ref='3/C08',
    technique='seeded insert/pop/copy/clear histories on SelectorMap and its copies against a naive dict+suffix model queried exhaustively after every operation; registration histories at API level with every spelling pushed through 8 API paths after every registration',
    text='Part A: after every operation every dotted suffix of every name ever used is looked up on every live map (exact-match precedence, single match, ambiguity error, unknown, get/in/len/items), minimal_selector must equal the shortest suffix that resolves back, and operations on a copy must not change any answer of the original. Part B: after every registration each spelling is used through bind (string/tuple), query, get_bindings, get_configurable (plain/scoped), @references; unique spellings must address one key / one configurable, ambiguous and unknown ones must raise, and two finalize hooks returning one parameter under two spellings must conflict. No schedule or I/O is involved (stated in DESIGN 3/C08): the simulated facet is the operation history.',
